@@ -695,6 +695,13 @@ class Request(interfaces.Request, BaseUnicastRequest):
     def _add_response_properties(response, request):
         response.request = request
 
+    @staticmethod
+    def _is_notification(response):
+        # Only successful responses carry an Observe option (RFC 7641 Section
+        # 4.2); any other response is the final one, whatever options a server
+        # may have put on it.
+        return response.opt.observe is not None and response.code.is_successful()
+
     def _run(self):
         # FIXME: This is in iterator form because it used to be a task that
         # awaited futures, and that code could be easily converted to an
@@ -749,7 +756,7 @@ class Request(interfaces.Request, BaseUnicastRequest):
                     self.observation.error(error.NotObservable())
             return
 
-        if first_event.message.opt.observe is None:
+        if not self._is_notification(first_event.message):
             if not self.observation.cancelled:
                 self.observation.error(error.NotObservable())
             self.log.error(
@@ -793,7 +800,7 @@ class Request(interfaces.Request, BaseUnicastRequest):
 
             self._add_response_properties(next_event.message, self._pipe.request)
 
-            if next_event.message.opt.observe is not None:
+            if self._is_notification(next_event.message):
                 # check for reordering
                 v2 = next_event.message.opt.observe
                 t2 = time.time()
@@ -821,7 +828,7 @@ class Request(interfaces.Request, BaseUnicastRequest):
                 self.observation.error(error.ObservationCancelled())
                 return
 
-            if next_event.message.opt.observe is None:
+            if not self._is_notification(next_event.message):
                 self.observation.error(error.ObservationCancelled())
                 self.log.error(
                     "Pipe indicated more possible responses"
@@ -1049,7 +1056,7 @@ class BlockwiseRequest(BaseUnicastRequest, interfaces.Request):
 
         lower_observation = None
         if app_request.opt.observe is not None:
-            if blockresponse.opt.observe is not None:
+            if Request._is_notification(blockresponse):
                 lower_observation = blockrequest.observation
             else:
                 obs = weak_observation()
